@@ -31,7 +31,7 @@ import itertools
 from mc import core, explorer
 
 NEEDS_BRIDGEPOINT = False
-BUDGET_S = {'quick': 200, 'thorough': 1500}
+BUDGET_S = {'quick': 3600, 'thorough': 14400}
 ASSUMPTIONS = [
     'the first sentence of the statement is read literally: every non-referential attribute is given its default before the '
     'arguments are applied, so one generator value is consumed per non-referential unique_id attribute even when an explicit '
